@@ -41,7 +41,7 @@ def cycleCountingAggregation( data, binSize=1.0 ):
     >>> rst = cycleCountingAggregation( data )
     '''
     # Egde cases
-    data = np.array( data )
+    data = np.array( data, dtype=float )
     if len( data.shape ) != 2:
         raise ValueError( "Input data dimension should be 2" )
     if data.shape[1] != 2:
